@@ -534,7 +534,7 @@ pub fn run(ctx: &mut Ctx) {
             run_case(ctx, &Json::obj().set("lane", "scenario").set("name", name).set("seed", ctx.seed));
         }
     }
-    let n = ctx.tier_pick(2000u64, 40_000);
+    let n = ctx.tier_pick(2000u64, 100_000);
     let max_lg = ctx.tier_pick(12u64, 14);
     let mut rng = ctx.rng("cases");
     for i in 0..n {
